@@ -17,7 +17,7 @@ def needs(notes):
         if re.search(r"(?i)\b(needs?|trigger|manifest)", para):
             return " ".join(para.split())[:900]
     return "see notes.md"
-for d in sorted(glob.glob("/tmp/out-C*/[1-9]")):
+for d in sorted(glob.glob("/tmp/out-C*/[1-9]*")):
     if not os.path.exists(d + "/patch.diff") or not os.path.exists(d + "/confirm.json"):
         continue
     conf = json.load(open(d + "/confirm.json"))
@@ -48,7 +48,7 @@ for d in sorted(glob.glob("/tmp/out-C*/[1-9]")):
     farm = res.endswith("farm.json")
     meta = {
         "property": prop, "name": name, "title": title, "files_changed": files,
-        "round": 1 if n in "123" else (2 if n in "456" else 3),
+        "round": {"1":1,"2":1,"3":1,"4":2,"5":2,"6":2,"7":3,"8":3,"9":4,"10":4}.get(n, 0),
         "needs_to_manifest": needs(notes),
         "confirmed": {"demo_passes_without_patch": conf.get("demo_without_patch_rc") == 0,
                       "demo_fails_with_patch": conf.get("demo_with_patch_rc", 0) != 0,
